@@ -454,10 +454,11 @@ func (p *Parser) peek() byte {
 }
 
 func (p *Parser) peekTwo() (byte, byte) {
-	// TODO: This should loop for slow readers, e.g. those providing one byte at
-	// a time. Use a loop and test it with [testing/iotest.OneByteReader].
-	if int(p.bsp+1) >= len(p.bs) {
-		p.fill()
+	// Loop for slow readers, e.g. those providing one byte at a time.
+	for int(p.bsp+1) >= len(p.bs) {
+		if p.fill() == 0 {
+			break
+		}
 	}
 	if int(p.bsp) >= len(p.bs) {
 		return utf8.RuneSelf, utf8.RuneSelf
@@ -1069,24 +1070,31 @@ loop:
 // zshNumRange peeks at the bytes after '<' to check for a zsh numeric
 // range glob pattern like <->, <5->, <-10>, or <5-10>.
 func (p *Parser) zshNumRange() bool {
-	// Peeking a handful of bytes here should be enough.
-	// TODO: This should loop for slow readers, e.g. those providing one byte at
-	// a time. Use a loop and test it with [testing/iotest.OneByteReader].
-	if int(p.bsp) >= len(p.bs) {
-		p.fill()
+	// Peeking a handful of bytes here should be enough; more digits than
+	// that are not looked for if they are not buffered yet.
+	const maxPeek = 64
+	// peekAt returns the byte i positions past the current one, reading more
+	// input as needed for slow readers, e.g. those providing one byte at a time.
+	peekAt := func(i int) byte {
+		for int(p.bsp)+i >= len(p.bs) {
+			if i >= maxPeek || p.fill() == 0 {
+				return utf8.RuneSelf
+			}
+		}
+		return p.bs[int(p.bsp)+i]
 	}
-	rest := p.bs[p.bsp:]
-	for len(rest) > 0 && rest[0] >= '0' && rest[0] <= '9' {
-		rest = rest[1:]
+	i := 0
+	for b := peekAt(i); b >= '0' && b <= '9'; b = peekAt(i) {
+		i++
 	}
-	if len(rest) == 0 || rest[0] != '-' {
+	if peekAt(i) != '-' {
 		return false
 	}
-	rest = rest[1:]
-	for len(rest) > 0 && rest[0] >= '0' && rest[0] <= '9' {
-		rest = rest[1:]
+	i++
+	for b := peekAt(i); b >= '0' && b <= '9'; b = peekAt(i) {
+		i++
 	}
-	return len(rest) > 0 && rest[0] == '>'
+	return peekAt(i) == '>'
 }
 
 func (p *Parser) advanceLitNone(r rune) {
